@@ -747,6 +747,38 @@ pub fn run(ctx: &mut Ctx) {
             ctx.count("s8.histories");
         }
     });
+    // hand-built records above the cap that PARSE ON THEIR OWN (returned without buffering): heartbeat, handshake
+    // and application data whose data length is 65535 .. 2 x 65536 + 2 and whose header length field says otherwise
+    ctx.floor("s8.standalone", 30);
+    ctx.sweep("S8-giant-standalone-records", 36, |ctx, idx| {
+        let mut r = Rng::new(idx ^ 0x58_57);
+        let n = [65535usize, 65536, 65537, 65538, 65539, 131072, 131073, 131074, 100_000][(idx % 9) as usize];
+        let (ty, data, hl): (u8, Vec<u8>, u16) = match idx / 9 {
+            0 => {
+                // heartbeat: type, payload_length, payload, padding
+                let pl = 65535usize.min(n - 3 - 16);
+                let mut d = vec![1u8, (pl >> 8) as u8, pl as u8];
+                d.extend(r.bytes(n - 3));
+                (0x18, d, *r.pick(&[0xffffu16, 0xffff, 16384, 3, 2]))
+            }
+            1 => {
+                let mut d = vec![20u8, ((n - 4) >> 16) as u8, ((n - 4) >> 8) as u8, (n - 4) as u8];
+                d.extend(r.bytes(n - 4));
+                (0x16, d, *r.pick(&[0xffffu16, 0, 16384]))
+            }
+            2 => (0x17, r.bytes(n), *r.pick(&[0xffffu16, 0, 5])),
+            _ => {
+                // small heartbeat message followed by a lot of padding
+                let mut d = vec![2u8, 0, 4, 1, 2, 3, 4];
+                d.extend(r.bytes(n - 7));
+                (0x18, d, *r.pick(&[0xffffu16, 23, 7]))
+            }
+        };
+        let ops = vec![Op::Rec { ty, ver: 0x0303, data: data.clone(), len: hl }, Op::NoCopy { ty, ver: 0x0303, data, len: hl }, Op::rec(0x16, AHs::HelloRequest.to_bytes())];
+        if run_history(ctx, "S8-standalone", &ops) {
+            ctx.count("s8.standalone");
+        }
+    });
 
     if thorough {
         ctx.note("thorough: 10x histories, 400 payloads with exhaustive 2/3-way cuts, 16 oversize streams".into());
